@@ -89,3 +89,36 @@ fn c18_list_constructors_report_true_size() {
     }
     println!("CASES c18_lists {cases}");
 }
+
+/// "a larger result is replaced by a FRESH opaque value": values culled separately — at the same instruction, from equal
+/// or from different over-limit data — are pairwise different opaque values, and differ from every value that existed before
+#[test]
+fn c18_culled_values_are_fresh() {
+    let mut cases = 0;
+    for limit in [1usize, 2, 5] {
+        let leaves: Vec<_> = (0..3).map(|_| RSV::new_value(0, Provenance::Synthetic)).collect();
+        let mut culled = vec![];
+        for ip in [7u32, 7, 7, 9] {
+            for l in &leaves {
+                // 1 + 2 * (1 + 2) = 7 nodes > limit
+                let inner = RSV::new(ip, RSVD::Add { left: l.clone(), right: l.clone() }, Provenance::Synthetic, None);
+                let big = RSV::new(ip, RSVD::Multiply { left: inner.clone(), right: inner }, Provenance::Synthetic, Some(limit));
+                if !matches!(big.data(), RSVD::Value { .. }) { continue; }
+                culled.push((ip, big));
+                cases += 1;
+            }
+        }
+        for i in 0..culled.len() {
+            if leaves.iter().any(|l| l.data() == culled[i].1.data()) {
+                witness("C18", "vs.new.culled_value_is_fresh", format!("limit={limit} cull #{i} at ip {}", culled[i].0), "equals a value that existed before".into(), "a fresh opaque value".into());
+            }
+            for j in 0..i {
+                if culled[i].1.data() == culled[j].1.data() {
+                    witness("C18", "vs.new.culled_value_is_fresh", format!("limit={limit} culls #{j} (ip {}) and #{i} (ip {})", culled[j].0, culled[i].0), format!("the same opaque value {}", culled[i].1), "two different fresh values".into());
+                    break;
+                }
+            }
+        }
+    }
+    println!("CASES c18_fresh {cases}");
+}
